@@ -7,7 +7,7 @@ set -u
 SRC=$1; I=$2; PID=$3; shift 3
 CHECKS=${*:-$PID}
 cd /verif
-D=/verif/seeded/$PID-$I
+D=/verif/seeded/$PID-${DEST_I:-$I}
 W=$(mktemp -d /var/tmp/seedwt-XXXXXX); rmdir "$W"
 git -C /repo worktree add -q "$W" HEAD || exit 9
 trap 'git -C /repo worktree remove --force "$W" >/dev/null 2>&1; git -C /repo worktree prune' EXIT
@@ -29,4 +29,4 @@ m.update({"property": pid, "confirmed": {"demo_exit_without_change": int(rc0), "
           "how": "fresh git worktree of /repo HEAD under /var/tmp; git apply patch.diff; PYTHONPATH=<worktree> /venv/bin/python _seed/demo.py; pytest -q -p no:cacheprovider"}})
 json.dump(m, open(dst, "w"), indent=1)
 PY
-for c in $CHECKS; do ./selftest.sh "seeded/$PID-$I/patch.diff" "$c" | cut -c1-230; done
+for c in $CHECKS; do ./selftest.sh "seeded/$PID-${DEST_I:-$I}/patch.diff" "$c" | cut -c1-230; done
